@@ -74,7 +74,11 @@ func validateBlock(evidencePool EvidencePool, store Store, state LatestBlockStat
 
 	// Validate block LastCommit
 	if block.Height() == state.InitialHeight {
-		if len(block.LastCommit().Signatures) != 0 {
+		// The first block carries the empty commit and nothing else: no field of
+		// it is covered by LastCommitHash, so anything else would let two different
+		// blocks share a hash.
+		lc := block.LastCommit()
+		if lc == nil || len(lc.Signatures) != 0 || lc.Height != 0 || lc.Round != 0 || !lc.BlockID.IsZero() {
 			return ErrLastCommitSig
 		}
 	} else {
